@@ -293,3 +293,12 @@ def run(project, chk):
                     ok = any(v and t.endswith(".is_valid") for (t, v) in lits)
                     chk.check(ok, "B4", fi.short, norm_text(c), project.loc(m, c), "make_readable is only called on a pair known to be valid", how=f"guards: {sorted(t for t, v in lits if v)}",
                               message="make_readable is reached for invalid entries (returns (None, False); the entry is not reported as invalid)")
+
+
+_run_own = run
+
+
+def run(project, chk):      # noqa: F811  (borrowed rules first: an established violation outlives a later inconclusive rule)
+    from checks._borrow import borrow
+    borrow(project, chk, "C05", {"F5"}, "B7", "the status label is the WCAG label of the pair at the entry's own text size (is_readable passes self.large; C05's label rule)")
+    _run_own(project, chk)
